@@ -36,6 +36,7 @@ def run(ctx) -> None:
     ctx.guard("C11.slice-zero", slice_zero)
     ctx.guard("C11.same-labware", identity_eq_rule, "C11.same-labware")
     ctx.guard("C11.snapshot", history_readonly)
+    ctx.guard("C11.snapshot", log_pair_atomic)
     ctx.guard("C11.owner", history_not_trimmed)
     ctx.guard("C11.report", report)
     ctx.guard("C11.distribute", distribute)
@@ -339,6 +340,53 @@ def snapshot(ctx) -> None:
         rets = [t for n, t in ctx.fv(vol).returns()]
         ctx.rep.check(bool(rets) and all(_is_copy(r) for r in rets), rule, f"{vol.qualname}/return", "`volumes` returns a copy",
                       "`volumes` returns the live array: history entries and arrays obtained from `volumes` change with later operations", where=vol.where())
+
+
+def log_pair_atomic(ctx) -> None:
+    """`Labware.log` appends the snapshot and its label as a pair: nothing that can raise sits between the two appends
+    (a refusal after the first one leaves the two lists of different length, and `history` zips every later label with the
+    state of the operation before it)."""
+    rule = "C11.snapshot"
+    f = ctx.prog.require_func("Labware.log", rule)
+    fv = ctx.fv(f)
+    selfn = f.params[0]
+    apps = {}
+    for node in fv.cfg.nodes:
+        if node.kind != "stmt":
+            continue
+        for sub in own_walk(node.ast):
+            if isinstance(sub, ast.Call) and isinstance(sub.func, ast.Attribute) and sub.func.attr == "append":
+                for attr in ("_history", "_labels"):
+                    if attr_of_name(sub.func.value, selfn, attr):
+                        apps.setdefault(attr, []).append((node, sub))
+    if set(apps) != {"_history", "_labels"} or any(len(v) != 1 for v in apps.values()):
+        return  # another shape of log(): judged by the other C11.snapshot / C11.owner obligations
+    (n1, c1), (n2, c2) = sorted((apps["_history"][0], apps["_labels"][0]), key=lambda t: (t[0].ast.lineno, t[0].id))
+    if not (n1.id == n2.id or fv.cfg.reaches(n1.id, n2.id)):
+        (n1, c1), (n2, c2) = (n2, c2), (n1, c1)
+
+    def may_raise(tree) -> Optional[str]:
+        for x in ast.walk(tree):
+            if isinstance(x, (ast.Raise, ast.Assert)):
+                return ast.unparse(x)[:50]
+            if isinstance(x, ast.Call) and x is not c1 and x is not c2:
+                cal = ctx.prog.resolve_call(f, x)
+                if cal.kind == "func" and cal.func is not None and any(isinstance(y, (ast.Raise, ast.Assert)) for y in own_walk(cal.func.node)):
+                    return f"{ast.unparse(x)[:40]} (raises: {cal.func.qualname})"
+        return None
+
+    bad = None
+    for a_ in c2.args:
+        bad = bad or may_raise(a_)
+    if n1.id != n2.id:
+        for nid in fv.cfg.between(n1.id, n2.id):
+            nd = fv.cfg.nodes[nid]
+            if nd.ast is not None and nd.kind in ("stmt", "if", "while", "for"):
+                bad = bad or may_raise(nd.ast if nd.kind == "stmt" else getattr(nd.ast, "test", getattr(nd.ast, "iter", nd.ast)))
+    ctx.rep.touch(f)
+    ctx.rep.check(bad is None, rule, f"{f.qualname}/pair-atomic", "the snapshot and its label are appended with nothing in between that can refuse",
+                  f"after the first of the two appends `{bad}` can raise: the state list is then one entry longer than the label list and every later label is paired with the "
+                  "state of the operation before it (the newest state is dropped from `history`)", where=f.where(n2.ast))
 
 
 def log_once(ctx, kind: str) -> None:
